@@ -236,7 +236,7 @@ INTERACT_TARGETS = [I + ":Interactor.interact", I + ":Interactor.work_on", I + "
                     TR + ":Key.affix_to", TR + ":PteraNameError.__init__", TR + ":PteraNameError.info"]
 
 
-@unit("interact", ["C02", "C04", "C16", "C01", "C12", "C11"], INTERACT_TARGETS, replay=_replay_file("c04_interact.py"),
+@unit("interact", ["C02", "C04", "C16", "C01", "C12", "C11", "C03", "C06", "C07", "C09", "C13"], INTERACT_TARGETS, replay=_replay_file("c04_interact.py"),
       assumed=["check_element is used through its contract (boolean function of element, name, category; proved under C11)",
                "accumulator_for of an opaque accumulator is effect-free for interact (forking is specified under C07)"])
 def u_interact(c):
@@ -247,7 +247,7 @@ def u_interact(c):
     _interact_harness(c, "sym")
 
 
-@unit("interact-bounded", ["C02", "C04", "C16", "C01", "C12", "C11"], INTERACT_TARGETS, mode="bounded", bound="2 handler entries for the variable, key None, triggers present, tags iff intercept present",
+@unit("interact-bounded", ["C02", "C04", "C16", "C01", "C12", "C11", "C03", "C06", "C07", "C09", "C13"], INTERACT_TARGETS, mode="bounded", bound="2 handler entries for the variable, key None, triggers present, tags iff intercept present",
       fallback_for="interact", replay=_replay_file("c04_interact.py"))
 def u_interact_b(c):
     """Bounded stand-in for 'interact' (2 concrete entries with symbolic fields)."""
